@@ -19,6 +19,7 @@ func init() { register("C08", c08) }
 // narrowingFn: the function the further-matching processor calls with (property, candidates).
 func narrowingFn(c *core.Ctx, ps []*procInfo) (*ssa.Function, *ssa.Call, *procInfo) {
 	prop := c.Named("component_definition", "Property")
+	meta := c.Named("component_definition", "Meta")
 	for _, p := range withRole(ps, "further", true) {
 		for _, ci := range core.Calls(p.Props) {
 			call, ok := ci.(*ssa.Call)
@@ -26,17 +27,70 @@ func narrowingFn(c *core.Ctx, ps []*procInfo) (*ssa.Function, *ssa.Call, *procIn
 				continue
 			}
 			cal := call.Common().StaticCallee()
-			if cal == nil || !c.InScope(cal) || cal.Signature.Params().Len() != 2 || cal.Signature.Results().Len() != 2 {
+			if cal == nil || !c.InScope(cal) || cal.Signature.Results().Len() != 2 || core.PkgOf(cal) != core.PkgOf(p.Props) {
 				continue
 			}
-			if core.NamedOf(cal.Signature.Params().At(0).Type()) == prop {
-				if _, isSl := cal.Signature.Params().At(1).Type().Underlying().(*types.Slice); isSl {
-					return cal, call, p
+			// (property [, candidates]) -> (candidates, error), as a function or as a method of the processor
+			if sl, isSl := cal.Signature.Results().At(0).Type().Underlying().(*types.Slice); !isSl || core.NamedOf(sl.Elem()) != meta {
+				continue
+			}
+			if !types.Identical(cal.Signature.Results().At(1).Type(), core.ErrType) {
+				continue
+			}
+			hasProp := false
+			for _, pa := range cal.Params {
+				if core.NamedOf(pa.Type()) == prop {
+					hasProp = true
 				}
+			}
+			if hasProp {
+				return cal, call, p
 			}
 		}
 	}
 	return nil, nil, nil
+}
+
+// narrowArgs lays the abstract property and candidate list out in the narrowing function's parameter order; the
+// candidate list is also the property's Injects (a narrowing that reads it from the property sees the same list).
+func narrowArgs(c *core.Ctx, fn *ssa.Function, n *absint.Tok, in *absint.List) []absint.Value {
+	prop := c.Named("component_definition", "Property")
+	n.Fields["Injects"] = in
+	var args []absint.Value
+	for _, pa := range fn.Params {
+		switch {
+		case core.NamedOf(pa.Type()) == prop:
+			args = append(args, n)
+		default:
+			if _, isSl := pa.Type().Underlying().(*types.Slice); isSl {
+				args = append(args, in)
+			} else {
+				args = append(args, absint.NewTok("recv:"+pa.Name(), "processor"))
+			}
+		}
+	}
+	return args
+}
+
+// narrowCallArgs picks the property and the candidate list out of an intercepted call of the narrowing function.
+func narrowCallArgs(c *core.Ctx, fn *ssa.Function, a []absint.Value) (*absint.Tok, absint.Value) {
+	prop := c.Named("component_definition", "Property")
+	var pr *absint.Tok
+	var lst absint.Value
+	for i, pa := range fn.Params {
+		if i >= len(a) {
+			break
+		}
+		if core.NamedOf(pa.Type()) == prop {
+			pr, _ = a[i].(*absint.Tok)
+		} else if _, isSl := pa.Type().Underlying().(*types.Slice); isSl {
+			lst = a[i]
+		}
+	}
+	if lst == nil && pr != nil {
+		lst = pr.Fields["Injects"]
+	}
+	return pr, lst
 }
 
 type candKind struct {
@@ -241,7 +295,7 @@ func narrowTable(c *core.Ctx, fn *ssa.Function, maxLen int) (rs rows, runs int, 
 						t.invoke[wqM] = func(ip *absint.Interp, a []absint.Value) absint.Value { return a[0].(*absint.Tok).Attr["qual"] }
 						t.invokeN["Kind"] = func(ip *absint.Interp, a []absint.Value) absint.Value { return absint.Int(fieldKind) }
 						t.global = func(g *ssa.Global) absint.Value { return absint.NewTok("global:"+g.Name(), "global") }
-						return t, []absint.Value{n, in}, nil
+						return t, narrowArgs(c, fn, n, in), nil
 					}
 					check := func(ip *absint.Interp, out absint.Outcome) {
 						var names []string
@@ -423,7 +477,7 @@ func c08(c *core.Ctx, r *core.Report) {
 		r.Undecided("C08.R3", "role:narrowing", "", "the further-matching processor's narrowing function was not found")
 		return
 	}
-	c08Commit(c, r, proc, call)
+	_ = call // the commit of the narrowing result is decided by the further-matching table (rows narrowed-once / optional-cleared)
 	frs, fruns, fund := furtherPropsTable(c, proc, fn)
 	r.Count("further_matching_table_runs", fruns)
 	if fund != "" {
@@ -607,12 +661,12 @@ func furtherPropsTable(c *core.Ctx, p *procInfo, narrowing *ssa.Function) (rs ro
 					list.Elems = append(list.Elems, pr)
 				}
 				t.callee[narrowing] = func(ip *absint.Interp, a []absint.Value) absint.Value {
-					pr, _ := a[0].(*absint.Tok)
+					pr, lst := narrowCallArgs(c, narrowing, a)
 					i := -1
 					if pr != nil && pr.Attr["idx"] != nil {
 						i = int(pr.Attr["idx"].(absint.Int))
 					}
-					same := i >= 0 && a[1] == absint.Value(orig[i])
+					same := i >= 0 && lst == absint.Value(orig[i])
 					calls = append(calls, fmt.Sprintf("%d:%v", i, same))
 					if i < 0 {
 						return absint.Tuple{absint.Nil{}, t.newErr("narrow")}
